@@ -153,6 +153,24 @@ func (s *Solver) solve(o *Obligation, g *FuncGen) {
 		final(verdicts[0], strings.Join(who, "+"))
 		return
 	}
+	// hint from the lock file: go straight to the strategy that discharged this obligation on the reference tree
+	if o.Hint == "case-split" {
+		if s.caseSplit(o, g, query, file) {
+			final("unsat", "case-split")
+			return
+		}
+	} else if o.Hint != "" && o.Hint != solvers[0].name {
+		for _, sd := range solvers {
+			if sd.name == o.Hint {
+				r := runSolver(sd, file, s.timeoutS)
+				record(sd, r)
+				if r.status == "unsat" {
+					final("unsat", sd.name)
+					return
+				}
+			}
+		}
+	}
 	// quick: z3 5.1 first, then the other two in parallel
 	r := runSolver(solvers[0], file, s.timeoutS)
 	record(solvers[0], r)
@@ -190,6 +208,10 @@ func (s *Solver) solve(o *Obligation, g *FuncGen) {
 			final("sat", solvers[i+1].name)
 			return
 		}
+	}
+	if o.Hint != "case-split" && s.caseSplit(o, g, query, file) {
+		final("unsat", "case-split")
+		return
 	}
 	st := "unknown"
 	if r.status == "timeout" {
@@ -259,4 +281,44 @@ func (s *Solver) solveCover(o *Obligation, query string) {
 	s.mu.Lock()
 	s.timeS += r.secs
 	s.mu.Unlock()
+}
+
+// caseSplit: case analysis over the merged control-flow paths (sound: the alternatives cover the path condition).
+func (s *Solver) caseSplit(o *Obligation, g *FuncGen, query, file string) bool {
+	cases := g.pcCases(o.pc, 24)
+	if len(cases) <= 1 {
+		return false
+	}
+	for ci, cs := range cases {
+		var sb strings.Builder
+		for _, p := range cs {
+			sb.WriteString("(assert " + p + ")\n")
+		}
+		q := strings.Replace(query, "(check-sat)\n", sb.String()+"(check-sat)\n", 1)
+		cf := fmt.Sprintf("%s.case%d.smt2", file, ci)
+		os.WriteFile(cf, []byte(q), 0o644)
+		ok := false
+		for _, sd := range solvers {
+			rr := runSolver(sd, cf, s.timeoutS)
+			s.mu.Lock()
+			s.timeS += rr.secs
+			s.mu.Unlock()
+			if rr.status == "unsat" {
+				ok = true
+				break
+			}
+			if rr.status == "sat" {
+				break
+			}
+		}
+		os.Remove(cf)
+		if !ok {
+			return false
+		}
+	}
+	if o.Outputs == nil {
+		o.Outputs = map[string]string{}
+	}
+	o.Outputs["case-split"] = fmt.Sprintf("unsat in each of %d cases", len(cases))
+	return true
 }
